@@ -258,6 +258,14 @@ theorem dirsStep_err_none (c : Conf) (track : Bool) (st : St) (s : Snap) (o0 : O
   have := changed_iff_ne st.lastDirs (s.dirs.map hashFiles) (by simpa [LenInv] using hlen)
   simpa using this
 
+theorem watchStep_fields (s : Snap) (p : Pass) :
+    (watchStep s p).out = p.out ∧ (watchStep s p).files = p.files ∧ (watchStep s p).hashes = p.hashes ∧
+    (watchStep s p).changed = p.changed ∧ ((watchStep s p).err = none → p.err = none) := by
+  unfold watchStep
+  by_cases hb : (p.err.isNone && watchedBroken s) = true
+  · simp [hb]
+  · simp [hb]
+
 /-- Everything `apply` does to the reload bookkeeping, when it returns without error and the
     watch interval is not zero. -/
 theorem apply_ok_cases (c : Conf) (track : Bool) (st : St) (s : Snap) (n : Nat)
@@ -273,10 +281,12 @@ theorem apply_ok_cases (c : Conf) (track : Bool) (st : St) (s : Snap) (n : Nat)
   | error e => simp [hcs] at hok
   | ok o0 =>
     simp only [hcs] at hok ⊢
-    generalize hp : dirsStep c track st s o0 = p at hok ⊢
+    obtain ⟨_, _, wh, wc, we⟩ := watchStep_fields s (dirsStep c track st s o0)
+    generalize hp : watchStep s (dirsStep c track st s o0) = p at hok wh wc we ⊢
     have hpe : p.err = none := finish_ok_err c st s p n hok
-    obtain ⟨hh, hchg⟩ := dirsStep_err_none c track st s o0 (by rw [hp]; exact hpe) hlen
-    rw [hp] at hh hchg
+    obtain ⟨hh, hchg⟩ := dirsStep_err_none c track st s o0 (we hpe) hlen
+    rw [← wh] at hh
+    rw [← wc] at hchg
     unfold finish at hok ⊢
     simp only [hpe] at hok ⊢
     -- the decision
@@ -379,6 +389,10 @@ theorem normalize_ok (c : Conf) (env : List (String × String)) (f : File) (k : 
     (h : normalize c env f k o = .ok o') : ∃ v, expected c env f = some v ∧ o' = o.set k v := by
   unfold normalize at h
   unfold expected
+  cases hd : f.dangling with
+  | true => simp [hd] at h
+  | false =>
+  simp only [hd, Bool.false_eq_true, if_false] at h
   cases hp : f.plain with
   | none => simp [hp] at h
   | some p =>
